@@ -11,7 +11,7 @@ def make(rd, tier, seed, ev):
     pick = gen_problems.sample_shapes(shapes, 120 if tier == 'quick' else 1500, seed)
     named = [(gen_problems.shape_name(s), gen_problems.render_timeline(s)) for s in pick]
     named += [(n, t) for n, t, ok in gen_problems.causal_family()] + [(n, t) for n, t, ok in gen_problems.temporal_family()]
-    gen = plancheck.write_problems(rd, named) + plancheck.feature_problems(rd, ['timeline', 'inheritance', 'tp', 'causal', 'incremental', 'cardinality', 'multisuper', 'impossible', 'subclass', 'unify', 'inactive', 'stricttie'], seed, tier)[0]
+    gen = plancheck.write_problems(rd, named) + plancheck.feature_problems(rd, ['timeline', 'inheritance', 'tp', 'causal', 'incremental', 'cardinality', 'multisuper', 'impossible', 'subclass', 'unify', 'inactive', 'stricttie', 'coefsign'], seed, tier)[0]
     repo = plancheck.repo_problems()
     if tier == 'quick':
         repo = [p for p in repo if not p[0].startswith(('GOAC', 'Matera'))] + [p for p in repo if p[0] in ('GOAC_2Pic_2Wind', 'GOAC_4Pic_3Wind', 'Matera_05', 'Matera_15')]
